@@ -13,7 +13,7 @@ import (
 )
 
 func isFactory(f *ssa.Function) bool {
-	return f != nil && f.Pkg != nil && f.Pkg.Pkg.Name() == "ast" && strings.HasPrefix(f.Name(), "New") && strings.HasSuffix(f.Name(), "Node") && f.Name() != "NewEmptyItemNode"
+	return f != nil && f.Pkg != nil && f.Pkg.Pkg.Name() == "ast" && strings.HasPrefix(f.Name(), "New") && strings.Contains(f.Name(), "Node") && f.Name() != "NewEmptyItemNode"
 }
 
 // decoderInterp prepares an interpreter for a method of hsms.parser with the
